@@ -190,7 +190,8 @@ func RunProducerBehaviour(c *Ctx, name string, toks []Tok, ih uint64) {
 		}
 		switch t.S("a") {
 		case "restart":
-			if p.up() { // the model restarts only when down; a real step error halts too
+			if p.up() { // the model's crash point lies after the last durable write of the start: kill the process at rest
+				c.Tr.Emit("Crash", world.F{"node": "seq", "at": -1, "during": "rest"})
 				p.n.M = nil
 			}
 			p.restart(fuse)
